@@ -7,7 +7,7 @@
    for every scalar type, every admissible shape combination of any rank and every element value.
    Operations not listed in the second part are covered by the correspondence only. *)
 From CC Require Import Base.Prelude Base.Scalar Base.Ty Base.Shape Graph.Value Graph.IR Graph.Eval
-  Proofs.EvalProofs Graph.Spec Proofs.EvalSpecBase Proofs.EvalSpecProofs Proofs.EvalSpecIndex.
+  Proofs.EvalProofs Graph.Spec Proofs.EvalSpecBase Proofs.EvalSpecProofs Proofs.EvalSpecIndex Proofs.EvalSpecMatmul.
 
 (* Kernels (bytes.rs:7-174): wrapping u128 arithmetic followed by `% modulus` is arithmetic
    modulo 2^w for every scalar type, 128-bit types included. *)
@@ -257,3 +257,110 @@ Print Assumptions C10_get_spec.
 Print Assumptions C10_get_slice_spec.
 Print Assumptions C10_get_slice_ellipsis.
 Print Assumptions C10_permute_axes_spec.
+
+(* ====================================================================================== *)
+(* Matmul (numpy.matmul) for operands of rank >= 2: stacks of n x k and k x m matrices whose
+   batch dimensions b0, b1 broadcast to br (any number of batch dimensions):
+   c[batch, i, j] = sum_l a[bcast batch, i, l] * b[bcast batch, l, j]  mod 2^w. *)
+Theorem C10_matmul_spec : forall st st1 st2 b0 b1 br n k m e0 e1,
+  bcast_to b0 br -> bcast_to b1 br -> 0 < n -> 0 < k -> 0 < m ->
+  let s0 := b0 ++ [n; k] in let s1 := b1 ++ [k; m] in let rs := br ++ [n; m] in
+  length e0 = Z.to_nat (prod_list s0) -> length e1 = Z.to_nat (prod_list s1) ->
+  exists r, eval_node OMatmul [TArray s0 st; TArray s1 st1] (TArray rs st2) [VArr e0; VArr e1] = Ok (VArr r) /\
+    length r = Z.to_nat (prod_list rs) /\
+    forall bi i j, in_shape bi br -> 0 <= i < n -> 0 <= j < m ->
+      get r rs (bi ++ [i; j]) =
+      dot_sum k (fun l => get e0 s0 (bcast_index b0 br bi ++ [i; l]))
+                (fun l => get e1 s1 (bcast_index b1 br bi ++ [l; j])) mod modulus st.
+Proof. exact matmul_spec. Qed.
+(* the rank-2 x rank-2 instance, spelled out *)
+Theorem C10_matmul_rank2_spec : forall st st1 st2 n k m e0 e1,
+  0 < n -> 0 < k -> 0 < m ->
+  length e0 = Z.to_nat (prod_list [n; k]) -> length e1 = Z.to_nat (prod_list [k; m]) ->
+  exists r, eval_node OMatmul [TArray [n; k] st; TArray [k; m] st1] (TArray [n; m] st2) [VArr e0; VArr e1]
+            = Ok (VArr r) /\
+    length r = Z.to_nat (prod_list [n; m]) /\
+    forall i j, 0 <= i < n -> 0 <= j < m ->
+      get r [n; m] [i; j] =
+      dot_sum k (fun l => get e0 [n; k] [i; l]) (fun l => get e1 [k; m] [l; j]) mod modulus st.
+Proof.
+  intros st st1 st2 n k m e0 e1 Hn Hk Hm L0 L1.
+  assert (B : bcast_to [] []) by (split; [cbn; lia|split; [constructor|cbn; constructor]]).
+  destruct (matmul_spec st st1 st2 [] [] [] n k m e0 e1 B B Hn Hk Hm L0 L1) as (r & E & L & S).
+  exists r. split; [exact E|]. split; [exact L|].
+  intros i j Hi Hj. exact (S [] i j in_shape_nil Hi Hj).
+Qed.
+(* rank-1 x rank-1 (Matmul and Dot): the inner product modulo 2^w *)
+Theorem C10_matmul_inner_spec : forall st st1 tr n e0 e1,
+  length e0 = Z.to_nat n -> length e1 = Z.to_nat n ->
+  eval_node OMatmul [TArray [n] st; TArray [n] st1] tr [VArr e0; VArr e1]
+  = Ok (VArr [dot_sum n (fun l => get e0 [n] [l]) (fun l => get e1 [n] [l]) mod modulus st]).
+Proof. exact matmul_inner_spec. Qed.
+Theorem C10_dot_inner_spec : forall st st1 tr n e0 e1,
+  length e0 = Z.to_nat n -> length e1 = Z.to_nat n ->
+  eval_node ODot [TArray [n] st; TArray [n] st1] tr [VArr e0; VArr e1]
+  = Ok (VArr [dot_sum n (fun l => get e0 [n] [l]) (fun l => get e1 [n] [l]) mod modulus st]).
+Proof. exact dot_inner_spec. Qed.
+(* Dot with a scalar factor is Multiply (documented rule) *)
+Theorem C10_dot_scalar_is_multiply : forall t0 t1 tr a b,
+  is_arr t0 && is_arr t1 = false ->
+  eval_node ODot [t0; t1] tr [a; b] = eval_node OMultiply [t0; t1] tr [a; b].
+Proof. intros t0 t1 tr a b H. cbn [eval_node nth nth_res bind]. unfold eval_dot. now rewrite H. Qed.
+
+(* Constructors and getters: getter-of-constructor laws; Repeat; Reshape of an array keeps the
+   flattened elements. *)
+Theorem C10_tuple_get_create : forall dts t ti vs i,
+  0 <= i < Z.of_nat (length vs) ->
+  (let* tup := eval_node OCreateTuple dts t vs in eval_node (OTupleGet i) [t] ti [tup])
+  = Ok (nth (Z.to_nat i) vs (VArr [])).
+Proof. intros. cbn [eval_node bind nth nth_res tup_of]. now apply znth_ok. Qed.
+Theorem C10_vector_create_repeat : forall dts t vs v n et,
+  eval_node (OCreateVector et) dts t vs = Ok (VTup vs) /\
+  eval_node (ORepeat n) dts t [v] = Ok (VTup (repeat v (Z.to_nat n))).
+Proof. intros; split; reflexivity. Qed.
+Theorem C10_reshape_array_identity : forall sh' st' t0 t es,
+  eval_node (OReshape (TArray sh' st')) [t0] t [VArr es] = Ok (VArr es).
+Proof. reflexivity. Qed.
+
+(* Stated, not yet proved (covered by the correspondence only): Dot of an N-d by an M-d array
+   (M >= 2), `dot(A, B)[ia.., ic.., j] = sum_l A[ia.., l] * B[ic.., l, j]`. *)
+Definition C10_dot_general_full : Prop := forall st st1 st2 a0 c k m e0 e1,
+  valid_shape a0 -> valid_shape c -> 0 < k -> 0 < m ->
+  let s0 := a0 ++ [k] in let s1 := c ++ [k; m] in let rs := a0 ++ c ++ [m] in
+  length e0 = Z.to_nat (prod_list s0) -> length e1 = Z.to_nat (prod_list s1) ->
+  exists r, eval_node ODot [TArray s0 st; TArray s1 st1] (TArray rs st2) [VArr e0; VArr e1] = Ok (VArr r) /\
+    length r = Z.to_nat (prod_list rs) /\
+    forall ia ic j, in_shape ia a0 -> in_shape ic c -> 0 <= j < m ->
+      get r rs (ia ++ ic ++ [j]) =
+      dot_sum k (fun l => get e0 s0 (ia ++ [l])) (fun l => get e1 s1 (ic ++ [l; j])) mod modulus st.
+Example C10_example_dot_general :
+  eval_node ODot [TArray [2; 2] U128; TArray [1; 2; 2] U128] (TArray [2; 1; 2] U128)
+            [VArr [2 ^ 127; 2 ^ 100; 3; 2 ^ 64]; VArr [2; 1; 2 ^ 27; 5]]
+  = Ok (VArr [2 ^ 127; 2 ^ 127 + 5 * 2 ^ 100; 2 ^ 91 + 6; 5 * 2 ^ 64 + 3]).
+Proof. reflexivity. Qed.
+
+Example C10_example_matmul :
+  bcast_to [2] [2] /\ bcast_to [1] [2] /\
+  eval_node OMatmul [TArray [2; 1; 2] U128; TArray [1; 2; 2] U128] (TArray [2; 1; 2] U128)
+            [VArr [2 ^ 127; 2 ^ 100; 3; 2 ^ 64]; VArr [2; 1; 2 ^ 27; 5]]
+  = Ok (VArr [2 ^ 127; 2 ^ 127 + 5 * 2 ^ 100; 2 ^ 91 + 6; 5 * 2 ^ 64 + 3]).
+Proof. split; [c10_bc|split; [c10_bc|reflexivity]]. Qed.
+Example C10_example_inner :
+  eval_node OMatmul [TArray [2] U128; TArray [2] U128] (TScalar U128) [VArr [2 ^ 127; 2 ^ 100]; VArr [2; 2 ^ 27]]
+  = Ok (VArr [2 ^ 127]) /\
+  eval_node ODot [TArray [2] I128; TArray [2] I128] (TScalar I128) [VArr [2 ^ 127; 2 ^ 100]; VArr [3; 2 ^ 27]]
+  = Ok (VArr [0]).
+Proof. split; reflexivity. Qed.
+Example C10_example_tuple :
+  (let* tup := eval_node OCreateTuple [] (TTuple []) [VArr [2 ^ 100]; VArr [1; 2]] in
+   eval_node (OTupleGet 1) [TTuple []] (TArray [2] U8) [tup]) = Ok (VArr [1; 2]).
+Proof. reflexivity. Qed.
+
+Print Assumptions C10_matmul_spec.
+Print Assumptions C10_matmul_rank2_spec.
+Print Assumptions C10_matmul_inner_spec.
+Print Assumptions C10_dot_inner_spec.
+Print Assumptions C10_dot_scalar_is_multiply.
+Print Assumptions C10_tuple_get_create.
+Print Assumptions C10_vector_create_repeat.
+Print Assumptions C10_reshape_array_identity.
